@@ -17,6 +17,7 @@ package validation
 import (
 	"crypto/tls"
 	"fmt"
+	"net/url"
 	"strings"
 
 	apimachineryvalidation "k8s.io/apimachinery/pkg/api/validation"
@@ -72,6 +73,12 @@ func ValidateServers(servers []proxyv1alpha1.UpstreamClusterServer, fldPath *fie
 			allErrs = append(allErrs, field.Invalid(fldPath.Child("servers").Index(i), s, "endpoint must supply http(s) schema"))
 		} else {
 			schemes.Insert(scheme)
+			// the gateway builds its client and the proxied URL from the endpoint: it must parse and name a host
+			if u, err := url.Parse(servers[i].Endpoint); err != nil {
+				allErrs = append(allErrs, field.Invalid(fldPath.Child("servers").Index(i), s, "endpoint must be a valid URL: "+err.Error()))
+			} else if len(u.Host) == 0 {
+				allErrs = append(allErrs, field.Invalid(fldPath.Child("servers").Index(i), s, "endpoint must supply a host"))
+			}
 		}
 		upstreams.Insert(s.Endpoint)
 	}
@@ -296,7 +303,7 @@ func ValidateFlowControlConfiguration(schema *proxyv1alpha1.FlowControlSchemaCon
 	}
 	if schema.GlobalMaxRequestsInflight != nil {
 		if schema.GlobalMaxRequestsInflight.Max < 0 {
-			allErrs = append(allErrs, field.Invalid(fldPath.Child("globalMaxRequestsInflight").Child("max"), schema.MaxRequestsInflight.Max, "must be bigger than or equal to 0"))
+			allErrs = append(allErrs, field.Invalid(fldPath.Child("globalMaxRequestsInflight").Child("max"), schema.GlobalMaxRequestsInflight.Max, "must be bigger than or equal to 0"))
 		}
 		if schema.MaxRequestsInflight == nil {
 			allErrs = append(allErrs, field.Required(fldPath.Child("maxRequestsInflight"), "required if globalMaxRequestsInflight is specified"))
@@ -314,7 +321,7 @@ func ValidateFlowControlConfiguration(schema *proxyv1alpha1.FlowControlSchemaCon
 		}
 	}
 	if schema.GlobalTokenBucket != nil {
-		if schema.GlobalTokenBucket.QPS == 0 {
+		if schema.GlobalTokenBucket.QPS <= 0 {
 			allErrs = append(allErrs, field.Invalid(fldPath.Child("globalTokenBucket").Child("qps"), schema.GlobalTokenBucket.QPS, "must bigger than 0"))
 		}
 		if schema.TokenBucket == nil {
@@ -334,7 +341,7 @@ func ValidateFlowControlConfiguration(schema *proxyv1alpha1.FlowControlSchemaCon
 
 func validateTokenBucketFlowControlSchema(tokenBucket *proxyv1alpha1.TokenBucketFlowControlSchema, fldPath *field.Path) field.ErrorList {
 	allErrs := field.ErrorList{}
-	if tokenBucket.QPS == 0 {
+	if tokenBucket.QPS <= 0 {
 		allErrs = append(allErrs, field.Invalid(fldPath.Child("qps"), tokenBucket.QPS, "must bigger than 0"))
 	}
 
